@@ -21,7 +21,8 @@ RULE = (
     "plus the prefix with everything below depth d opened) x a schema-stratified formula set (plus, per nonterminal, ten atoms over SMT operators the evaluator hands to Z3 - prefixof, suffixof, contains, "
     "indexof, str.<=, str.<, replace, at, substr - positive and negated, under both quantifiers) x ALL completions from per-nonterminal "
     "pools of closed subtrees; a schema is a formula with constants blanked; non-trivial iff at least two of {TRUE, FALSE, UNKNOWN} occurred "
-    "for it on open prefixes (UNKNOWN is always allowed)"
+    "for it on open prefixes (UNKNOWN is always allowed); every prefix is also evaluated as the tree below <start> (rooted in another nonterminal) with "
+    "the formulas that quantify over that root's label"
 )
 ASSUMPTIONS = [
     "reference semantics mc/ref/sem.py decides the completions (bound to evaluate() on closed trees by C03); EITHER accepts any verdict",
@@ -149,12 +150,22 @@ def run_chunk(chunk):
         except Exception:  # noqa  (parser problems belong to C03/C07)
             r.outcomes["formula-rejected-by-parser"] += 1
     refcache = {}
+    units = []
     for p in P:
         proot = with_ids(p)
+        units.append((proot, None, parsed))
+        # the same prefix evaluated on the subtree below <start> (a tree rooted in another nonterminal): the node a quantifier has to
+        # match can then be the ROOT of the evaluated tree; only formulas that quantify over the root's label are run
+        sub = proot[1][0] if proot[1] and len(proot[1]) == 1 else None
+        if sub is not None and sub[1] and any(st[1] is None for _q, st in paths(sub)):
+            fs = [x for x in parsed if _quantifies_over(x[0], sub[0])]
+            if fs:
+                units.append((sub, (0,), fs))
+    for proot, subpath, formulas_ in units:
         dt = to_dt(proot)
         comps = None
-        r.state(name, p)
-        for f, text, pf in parsed:
+        r.state(name, strip_ids(proot), subpath)
+        for f, text, pf in formulas_:
             try:
                 with time_cap(60):
                     v = common.tv(evaluate(pf, dt, g))
@@ -175,7 +186,7 @@ def run_chunk(chunk):
                 continue
             r.verdict(sch, f"definite-{v}")
             if comps is None:
-                comps = list(completions(proot, pools))
+                comps = list(completions(proot, pools))  # completions of a subtree are the subtrees of the completions
                 if comps and comps[0][1]:
                     r.caps["completions_capped_4000"] += 1
             for c, _capped in comps:
@@ -197,6 +208,17 @@ def run_chunk(chunk):
                     break
         r.sample({"grammar": name, "open_tree": _show(proot), "formulas": len(parsed)}, limit=2)
     return r
+
+
+def _quantifies_over(f, label):
+    k = f[0]
+    if k in ("forall", "exists"):
+        return f[1] == label or _quantifies_over(f[5], label)
+    if k in ("forall_int", "exists_int"):
+        return _quantifies_over(f[2], label)
+    if k in ("not", "and", "or"):
+        return any(_quantifies_over(g_, label) for g_ in f[1:])
+    return False
 
 
 def _count_atoms(f, types, acc):
